@@ -24,6 +24,10 @@ NCPU = os.cpu_count() or 4
 GOENV = dict(GOFLAGS="-mod=mod", GOPROXY="off", GOSUMDB="off", GOTOOLCHAIN="local")
 
 
+import threading
+_TMP_LOCK = threading.Lock()
+
+
 class Inconclusive(Exception):
     pass
 
@@ -60,8 +64,10 @@ class Run:
             shutil.rmtree(self.scratch, ignore_errors=True)
 
     def tmp(self, name):
-        self._n += 1
-        return os.path.join(self.scratch, "%03d-%s" % (self._n, name))
+        with _TMP_LOCK:
+            self._n += 1
+            n = self._n
+        return os.path.join(self.scratch, "%04d-%s" % (n, name))
 
     def quick(self):
         return self.tier == "quick"
@@ -72,8 +78,9 @@ class Run:
 # ----------------------------------------------------------------------------
 def tlc(run, module_dir, module, cfg_text, workers=None, extra=(), env=None, timeout=3600, simulate=None):
     """Run TLC on <module_dir>/<module>.tla with the given config text. Returns (rc, output)."""
-    cfgp = os.path.join(module_dir, "%s_%d.cfg" % (module, run._n))
-    run._n += 1
+    with _TMP_LOCK:
+        run._n += 1
+        cfgp = os.path.join(module_dir, "%s_%d.cfg" % (module, run._n))
     with open(cfgp, "w") as f:
         f.write(cfg_text)
     meta = run.tmp("meta")
